@@ -34,12 +34,20 @@ var c01wTopics = []string{"a", "a/b", "a/b/c", "b", "c/b"}
 
 func c01wpaths() []c01wpath {
 	var out []c01wpath
+	// a third node fails while the session's subscriptions are still in its node's transmit queue: what the node queues
+	// because of the failure (now and when it purges the failed node's sessions 3 s later) must not cost them their delivery
+	for _, f1 := range c01wFilters {
+		out = append(out, c01wpath{3, []string{f1}, nil, false, "peer-failure-while-subscriptions-are-queued"})
+	}
 	for _, n := range []int{1, 2} {
 		for _, f1 := range c01wFilters {
 			out = append(out, c01wpath{n, []string{f1}, nil, false, ""})
 			out = append(out, c01wpath{n, []string{f1}, nil, false, "same-client-id-in-other-tenant"})
 			if n == 2 {
 				out = append(out, c01wpath{n, []string{f1}, nil, false, "peer-update"})
+				// nothing else ever happens on the publisher's node: no session subscribes there, no subscription is created
+				// there; all it learns about subscriptions comes from the other node's gossip
+				out = append(out, c01wpath{n, []string{f1}, nil, false, "quiet-publisher-node"})
 			}
 			for _, f2 := range c01wFilters {
 				if f1 != f2 {
@@ -96,18 +104,44 @@ func TestC01Wire(t *testing.T) {
 				}
 				s1 := w.NewClient("s1", 1, AckAll)
 				s1.Connect(ConnectOpts{ClientID: "s1", KeepAlive: 600})
-				s2 := w.NewClient("s2", p.Nodes, AckAll)
+				other := p.Nodes
+				if other == 3 {
+					other = 2 // node 3 is the one that fails
+				}
+				s2 := w.NewClient("s2", other, AckAll)
 				s2.Connect(ConnectOpts{ClientID: "s2", KeepAlive: 600})
+				// every topic is published once while nobody is subscribed to anything (whatever a node remembers about a
+				// topic without subscribers must not outlive the arrival of one)
+				pub := w.NewClient("pub", other, AckAll)
+				pub.Connect(ConnectOpts{ClientID: "pub", KeepAlive: 600})
+				w.Step()
+				for _, tp := range c01wTopics {
+					pub.Publish(tp, "early", 0, false, 0)
+				}
+				w.Step()
 				// subscriptions of a session that is not connected anywhere (created through the node's RPC API, as
 				// waspctl does): they come first in every filter's list and must not cost the live sessions anything
 				for _, f := range append(append([]string{}, c01wFilters...), "a/#", "+/b", "a/b", "#") {
+					if p.Env == "quiet-publisher-node" {
+						break
+					}
 					for _, n := range w.Nodes {
 						n.DState.Subscriptions().CreateFrom("ghost", n.ID, []byte("_default/"+f), 1)
 					}
 				}
 				w.Step()
-				s2.Subscribe(1, 0, "+/b")
-				s2.Subscribe(2, 0, "#")
+				if p.Env == "peer-failure-while-subscriptions-are-queued" {
+					w.PumpGossip()
+					w.GossipLazy = true
+					w.Leave(3)
+				}
+				s2filters := []string{"+/b", "#"}
+				if p.Env == "quiet-publisher-node" {
+					s2filters = nil
+				} else {
+					s2.Subscribe(1, 0, "+/b")
+					s2.Subscribe(2, 0, "#")
+				}
 				active := map[string]bool{}
 				mid := int32(10)
 				if p.OnePacket {
@@ -139,6 +173,11 @@ func TestC01Wire(t *testing.T) {
 					Observe(w, rep)
 				}
 				switch p.Env {
+				case "peer-failure-while-subscriptions-are-queued":
+					w.Idle(4 * time.Second) // the delayed purge of the failed node's sessions has been queued too
+					w.GossipLazy = false
+					w.PumpGossip()
+					w.Step()
 				case "peer-update":
 					w.JoinNotices()
 					w.Step()
@@ -153,9 +192,6 @@ func TestC01Wire(t *testing.T) {
 					viol("c01-wire-session-ended", "after %q the broker ended the subscribed session", p.Env)
 					return
 				}
-				pub := w.NewClient("pub", p.Nodes, AckAll)
-				pub.Connect(ConnectOpts{ClientID: "pub", KeepAlive: 600})
-				w.Step()
 				for k, tp := range c01wTopics {
 					pub.Publish(tp, fmt.Sprintf("p%d", k), 0, false, 0)
 					w.Step()
@@ -191,7 +227,7 @@ func TestC01Wire(t *testing.T) {
 						return
 					}
 					want2 := 0
-					for _, f := range []string{"+/b", "#"} {
+					for _, f := range s2filters {
 						if refMatchTopic(f, tp) {
 							want2++
 						}
